@@ -69,6 +69,12 @@ theorem lcp_silent_peer_quiet (c : Cfg) (evs : List Ev) :
       (timeouts FsmLcp.tables c (run FsmLcp.tables c (init c) evs) n).armed = false :=
   silent_peer_stops_of lcp_to c evs
 
+/-- Pinned table fact: in the Go source as it is now, stopTimer() before the state switch occurs only in the five
+    receive handlers that finding KF-ncp-timer-stopped-early names (and in Down); in particular not in
+    receiveConfigureRequest.  The monitor attributes "waiting without a timer" to that finding only after one of those
+    five handlers ran; a new early stopTimer() elsewhere breaks this obligation. -/
+theorem lcp_stoptimer_only_in_named_handlers : GoodStops FsmLcp.tables = true := by decide +kernel
+
 /-- PARTIAL (finding KF-ncp-timer-stopped-early).  Full property: against a silent peer the automaton not only falls
     quiet but STOPS, i.e. leaves the timer-driven states.  Proved: if at the moment the peer falls silent the automaton
     is not already waiting without a timer (`WaitOk`: in Closing/Stopping/Req-Sent/Ack-Rcvd/Ack-Sent the restart timer
@@ -141,6 +147,12 @@ theorem ipcp_silent_peer_quiet (c : Cfg) (evs : List Ev) :
       (timeouts FsmIpcp.tables c (run FsmIpcp.tables c (init c) evs) n).armed = false :=
   silent_peer_stops_of ipcp_to c evs
 
+/-- Pinned table fact: in the Go source as it is now, stopTimer() before the state switch occurs only in the five
+    receive handlers that finding KF-ncp-timer-stopped-early names (and in Down); in particular not in
+    receiveConfigureRequest.  The monitor attributes "waiting without a timer" to that finding only after one of those
+    five handlers ran; a new early stopTimer() elsewhere breaks this obligation. -/
+theorem ipcp_stoptimer_only_in_named_handlers : GoodStops FsmIpcp.tables = true := by decide +kernel
+
 /-- PARTIAL (finding KF-ncp-timer-stopped-early).  Full property: against a silent peer the automaton not only falls
     quiet but STOPS, i.e. leaves the timer-driven states.  Proved: if at the moment the peer falls silent the automaton
     is not already waiting without a timer (`WaitOk`: in Closing/Stopping/Req-Sent/Ack-Rcvd/Ack-Sent the restart timer
@@ -203,6 +215,12 @@ theorem ipv6cp_silent_peer_quiet (c : Cfg) (evs : List Ev) :
     ∃ n, n ≤ (max (initRc c) 0).toNat + 1 ∧
       (timeouts FsmIpv6cp.tables c (run FsmIpv6cp.tables c (init c) evs) n).armed = false :=
   silent_peer_stops_of ipv6cp_to c evs
+
+/-- Pinned table fact: in the Go source as it is now, stopTimer() before the state switch occurs only in the five
+    receive handlers that finding KF-ncp-timer-stopped-early names (and in Down); in particular not in
+    receiveConfigureRequest.  The monitor attributes "waiting without a timer" to that finding only after one of those
+    five handlers ran; a new early stopTimer() elsewhere breaks this obligation. -/
+theorem ipv6cp_stoptimer_only_in_named_handlers : GoodStops FsmIpv6cp.tables = true := by decide +kernel
 
 /-- PARTIAL (finding KF-ncp-timer-stopped-early).  Full property: against a silent peer the automaton not only falls
     quiet but STOPS, i.e. leaves the timer-driven states.  Proved: if at the moment the peer falls silent the automaton
